@@ -461,7 +461,7 @@ func pgApply(stp **pgState, toks []string) (opline, obs string, tags []string) {
 				break
 			}
 			b.WriteString(" " + hxs(x.k) + ":" + hxs(x.v))
-			if n++; n > 100000 {
+			if n++; n > 3000 {
 				end = "runaway"
 				break
 			}
@@ -812,9 +812,13 @@ func TestVerifPaginate(t *testing.T) {
 			pgReplayFile(t, out, p+"/"+n, "corpus-"+strings.TrimSuffix(n, ".ops"))
 		}
 	}
-	n := verifN(1200, 24000)
+	n := verifN(1200, 12000)
 	for c := 0; c < n; c++ {
 		pgRunCase(out, fmt.Sprintf("g%d", c), c)
+		// a hang or crash of a later case must not lose what has been observed so far
+		out.mu.Lock()
+		out.w.Flush()
+		out.mu.Unlock()
 	}
 }
 
